@@ -321,3 +321,133 @@ pub fn run_sfs_piped(args: &[&str], chunks: &[&[u8]], delay_ms: u64, scratch: &S
         stderr: out.stderr,
     }
 }
+
+/// How a consumer process is handed its input bytes.
+#[derive(Clone, Copy, Debug, PartialEq, Eq)]
+pub enum Transport {
+    /// regular file opened as fd 0
+    StdinFile,
+    /// real OS pipe on fd 0, everything written in one go
+    StdinPipe,
+    /// regular file named on the command line
+    PathFile,
+    /// named pipe (FIFO) named on the command line; its metadata length is 0
+    PathFifo,
+    /// `/dev/stdin` named on the command line while fd 0 is a real pipe
+    PathDevStdin,
+}
+
+impl Transport {
+    pub const ALL: [Transport; 5] = [
+        Transport::StdinFile,
+        Transport::StdinPipe,
+        Transport::PathFile,
+        Transport::PathFifo,
+        Transport::PathDevStdin,
+    ];
+    pub fn name(self) -> &'static str {
+        match self {
+            Transport::StdinFile => "stdin-file",
+            Transport::StdinPipe => "stdin-pipe",
+            Transport::PathFile => "path-file",
+            Transport::PathFifo => "path-fifo",
+            Transport::PathDevStdin => "path-devstdin-pipe",
+        }
+    }
+    pub fn from_name(n: &str) -> Option<Transport> {
+        Transport::ALL.iter().copied().find(|t| t.name() == n)
+    }
+}
+
+/// Runs `sfs args... [path]` with `bytes` delivered through the given transport (the positional
+/// input path, where the transport needs one, is appended as the last argument).
+pub fn run_sfs_transport(args: &[&str], bytes: &[u8], transport: Transport, suffix: &str, scratch: &Scratch) -> Out {
+    match transport {
+        Transport::StdinFile => run_sfs(args, Stdin::Bytes(bytes), scratch),
+        Transport::StdinPipe => run_sfs_piped(args, &[bytes], 0, scratch),
+        Transport::PathFile => {
+            let p = scratch.file(suffix, bytes);
+            let mut a: Vec<&str> = args.to_vec();
+            a.push(p.to_str().unwrap());
+            let o = run_sfs(&a, Stdin::Null, scratch);
+            let _ = fs::remove_file(&p);
+            o
+        }
+        Transport::PathDevStdin => {
+            let mut a: Vec<&str> = args.to_vec();
+            a.push("/dev/stdin");
+            run_sfs_piped(&a, &[bytes], 0, scratch)
+        }
+        Transport::PathFifo => run_sfs_fifo(args, bytes, suffix, scratch),
+    }
+}
+
+/// Runs `sfs args... <fifo>` where `<fifo>` is a named pipe into which `bytes` are written by a
+/// helper thread. If the subject never opens the FIFO the helper is released afterwards.
+pub fn run_sfs_fifo(args: &[&str], bytes: &[u8], suffix: &str, scratch: &Scratch) -> Out {
+    use std::os::unix::fs::OpenOptionsExt;
+    use std::sync::{atomic::AtomicBool, Arc};
+    let path = scratch.path(&format!(".fifo{suffix}"));
+    let c = std::ffi::CString::new(path.to_str().unwrap()).unwrap();
+    // SAFETY: plain libc call with a valid NUL-terminated path.
+    if unsafe { libc::mkfifo(c.as_ptr(), 0o600) } != 0 {
+        eprintln!("ENGINE: mkfifo {} failed", path.display());
+        std::process::exit(2);
+    }
+    let mut a: Vec<&str> = args.to_vec();
+    a.push(path.to_str().unwrap());
+    let mut cmd = Command::new(SFS_BIN);
+    cmd.args(&a)
+        .env_clear()
+        .env("SFS_ALLOW_STDIN", "1")
+        .env("RUST_BACKTRACE", "0")
+        .current_dir(&scratch.dir)
+        .stdin(Stdio::null())
+        .stdout(Stdio::piped())
+        .stderr(Stdio::piped());
+    // SAFETY: only async-signal-safe libc calls between fork and exec.
+    unsafe {
+        cmd.pre_exec(|| {
+            libc::alarm(60);
+            Ok(())
+        });
+    }
+    let child = match cmd.spawn() {
+        Ok(c) => c,
+        Err(e) => {
+            eprintln!("ENGINE: cannot run {SFS_BIN}: {e}");
+            std::process::exit(2);
+        }
+    };
+    let done = Arc::new(AtomicBool::new(false));
+    let owned = bytes.to_vec();
+    let wpath = path.clone();
+    let wdone = done.clone();
+    let writer = std::thread::spawn(move || {
+        // blocks until the subject (or the release below) opens the FIFO for reading
+        if let Ok(mut f) = fs::OpenOptions::new().write(true).open(&wpath) {
+            let _ = f.write_all(&owned);
+        }
+        wdone.store(true, Ordering::SeqCst);
+    });
+    let out = child.wait_with_output().expect("wait for sfs");
+    // release a helper that is still blocked because the subject never opened / stopped reading
+    if !done.load(Ordering::SeqCst) {
+        if let Ok(mut f) = fs::OpenOptions::new().read(true).custom_flags(libc::O_NONBLOCK).open(&path) {
+            use std::io::Read;
+            let mut buf = [0u8; 65536];
+            while !done.load(Ordering::SeqCst) {
+                let _ = f.read(&mut buf);
+                std::thread::sleep(std::time::Duration::from_millis(1));
+            }
+        }
+    }
+    let _ = writer.join();
+    let _ = fs::remove_file(&path);
+    Out {
+        code: out.status.code(),
+        signal: out.status.signal(),
+        stdout: out.stdout,
+        stderr: out.stderr,
+    }
+}
